@@ -122,6 +122,16 @@ Definition sign_extended (a : sv) (bitwidth : Z) : option sv :=
 Definition truncate (a : sv) (bitwidth : Z) : option sv :=
   if wd a <? bitwidth then None else getitem a (ISlice None (Some bitwidth) None).
 
+(* the same three where the caller (a regenerated helper body, Gen/C06Helpers.v) does not
+   handle the error case: (0, 0) stands for "the call raised" *)
+Definition sign_extended_d (a : sv) (n : Z) : sv :=
+  match sign_extended a n with Some r => r | None => (0, 0) end.
+Definition zero_extended_d (a : sv) (n : Z) : sv :=
+  match zero_extended a n with Some r => r | None => (0, 0) end.
+(* Const(v, bitwidth, signed) for a Python int v *)
+Definition const_d (v : Z) (bitwidth : option Z) (signed : bool) : sv :=
+  match convert_int v bitwidth signed with Some r => r | None => (0, 0) end.
+
 (* corecircuits.as_wires(val, bitwidth) on something that already is a WireVector *)
 Definition as_wires_wire (a : sv) (bitwidth : option Z) : option sv :=
   match bitwidth with
